@@ -146,7 +146,7 @@ class Walk:
         assigns = G.assignments(vs, 8)
         try:
             if Q.is_equation(root):
-                verdict, info = Q.compare_equations(self.ctx, root, new, ap.fresh_consts, assigns[:6])
+                verdict, info = Q.compare_equations(self.ctx, root, new, ap.fresh_consts, assigns[:6], balanced_move=(rule_name == "BM"))
             else:
                 verdict, info = Q.compare_expressions(self.ctx, root, new, ap.fresh_consts, assigns)
                 if verdict == "kind":
